@@ -91,31 +91,28 @@ Proof.
   apply andb_true_iff in Hp as [Hb Hr]. rewrite consol_widths; [reflexivity | lia | exact Hr].
 Qed.
 
-(* ------------------------------------------------------------------ .values *)
-Lemma values_len (g : block -> list val -> list val) bs :
-  length (flat_map (fun b => map (g b) (snd b)) bs) = length (blocks_cols bs).
+(* ------------------------------------------------------------------ column by column *)
+Lemma split_one d (cols : list (list val)) :
+  flat_map blk_cols (map (fun col => (d, [col])) cols) = blk_cols (d, cols).
+Proof. unfold blk_cols. induction cols as [|c cs IH]; cbn in *; [reflexivity|]. rewrite IH. reflexivity. Qed.
+
+Lemma split_cols_cols bs : blocks_cols (split_cols bs) = blocks_cols bs.
 Proof.
-  unfold blocks_cols. induction bs as [|b r IH]; cbn; [reflexivity|].
-  rewrite !app_length, IH. unfold blk_cols. rewrite !map_length. reflexivity.
+  unfold blocks_cols, split_cols. induction bs as [|b r IH]; [reflexivity|].
+  cbn [flat_map]. rewrite flat_map_app. f_equal; [|exact IH]. rewrite split_one. destruct b; reflexivity.
 Qed.
 
-Lemma values_inert bs rk :
-  (forall col u, In col (map snd (blocks_cols bs)) -> In u col -> forall k, co k rk u = u) ->
-  flat_map (fun b => map (map (co (okind_of (fst b)) rk)) (snd b)) bs = map snd (blocks_cols bs).
+Lemma split_cols_widths bs :
+  map (fun ob : oblock => length (snd ob)) (map as_oblock (split_cols bs)) = map (fun _ => 1%nat) (blocks_cols bs).
 Proof.
-  unfold blocks_cols. induction bs as [|b r IH]; cbn; intro H; [reflexivity|].
-  rewrite map_app. f_equal.
-  - unfold blk_cols. rewrite map_map. cbn. rewrite map_id.
-    rewrite <- (map_id (snd b)) at 2. apply map_ext_in. intros col Hc.
-    rewrite <- (map_id col) at 2. apply map_ext_in. intros u Hu. apply (H col u); [|exact Hu].
-    rewrite map_app. apply in_or_app. left. unfold blk_cols. rewrite map_map. cbn. rewrite map_id. exact Hc.
-  - apply IH. intros col u Hc Hu. apply (H col u); [|exact Hu]. rewrite map_app. apply in_or_app. right. exact Hc.
+  unfold blocks_cols, split_cols. induction bs as [|b r IH]; [reflexivity|].
+  cbn [flat_map]. rewrite !map_app. f_equal; [|exact IH]. unfold blk_cols. rewrite !map_map. reflexivity.
 Qed.
 
-Lemma existsb_false_in {A} (p : A -> bool) l x : existsb p l = false -> In x l -> p x = false.
+Lemma const_map_len {A B C} (c : C) (a : list A) (b : list B) : length a = length b -> map (fun _ => c) a = map (fun _ => c) b.
 Proof.
-  induction l as [|y ys IH]; cbn; intros H Hin; [contradiction|].
-  apply orb_false_iff in H as [H1 H2]. destruct Hin as [->|Hin]; [exact H1 | apply IH; assumption].
+  revert b. induction a as [|x xs IH]; intros [|y ys] H; cbn in *; try discriminate; [reflexivity|].
+  f_equal. apply IH. congruence.
 Qed.
 
 (* ------------------------------------------------------------------ the == of two TypeBlocks, as columns *)
@@ -170,27 +167,9 @@ Proof.
       apply list_Z_eqb_eq in E2. rewrite <- !reblock_widths in E2 by assumption.
       rewrite concat_eq_blocks by (apply widths_nat; exact E2).
       rewrite !ocols_as_oblock, !reblock_cols. rewrite (eqcols_inert _ _ Hd), !map_snd_kcol. reflexivity.
-    + (* .values *)
-      cbn [map2 concat]. rewrite app_nil_r. rewrite eq_block_cols. unfold values_block. cbn [fst snd].
-      set (rka := row_kind (tb_blocks a)) in *. set (rkb := row_kind (tb_blocks b)) in *.
-      assert (Ia : forall col u, In col (tb_vals a) -> In u col -> forall k o, (is_kobj rka || is_kobj rkb = false -> is_kobj o = false) -> co k o u = u).
-      { intros col u Hc Hu k o Ho. destruct (is_kobj rka || is_kobj rkb) eqn:Eo.
-        - apply andb_true_iff in Hd as [Hd _]. unfold no_nat in Hd. apply negb_true_iff in Hd.
-          apply co_id_not_nat. eapply has_nat_in; [|exact Hu]. eapply existsb_false_in; eauto.
-        - apply co_id_kinds. rewrite (Ho eq_refl). apply andb_false_r. }
-      assert (Ib : forall col u, In col (tb_vals b) -> In u col -> forall k o, (is_kobj rka || is_kobj rkb = false -> is_kobj o = false) -> co k o u = u).
-      { intros col u Hc Hu k o Ho. destruct (is_kobj rka || is_kobj rkb) eqn:Eo.
-        - apply andb_true_iff in Hd as [_ Hd]. unfold no_nat in Hd. apply negb_true_iff in Hd.
-          apply co_id_not_nat. eapply has_nat_in; [|exact Hu]. eapply existsb_false_in; eauto.
-        - apply co_id_kinds. rewrite (Ho eq_refl). apply andb_false_r. }
-      rewrite (values_inert (tb_blocks a) rka), (values_inert (tb_blocks b) rkb).
-      * rewrite map2_map_l, map2_map_r. unfold eqcol. cbn [fst snd]. fold (tb_vals a) (tb_vals b).
-        apply map2_ext_in. intros ca cb Hca Hcb. apply map2_ext_in. intros u v Hu Hv. unfold np_eq.
-        rewrite (Ia ca u Hca Hu), (Ib cb v Hcb Hv); [reflexivity| |].
-        -- intro Eo. apply orb_false_iff in Eo. tauto.
-        -- intro Eo. apply orb_false_iff in Eo. tauto.
-      * intros col u Hc Hu k. apply (Ib col u Hc Hu). intro Eo. apply orb_false_iff in Eo. tauto.
-      * intros col u Hc Hu k. apply (Ia col u Hc Hu). intro Eo. apply orb_false_iff in Eo. tauto.
+    + (* column by column *)
+      rewrite concat_eq_blocks by (rewrite !split_cols_widths; apply const_map_len; exact Hn).
+      rewrite !ocols_as_oblock, !split_cols_cols. rewrite (eqcols_inert _ _ Hd), !map_snd_kcol. reflexivity.
 Qed.
 
 (* ------------------------------------------------------------------ the mask, as columns *)
@@ -342,11 +321,11 @@ Example tb_dom_example :
   M_tb_equals (mk_mcfg false false false false) (mk_eopts false false false true) a b = Ok true.
 Proof. split; reflexivity. Qed.
 
-(* the .values path with an object row dtype *)
-Example tb_dom_example_values :
+(* the column-by-column path (layouts neither block- nor reblock-compatible) *)
+Example tb_dom_example_columns :
   let a := mk_etb 1 1 [(DDt UD, [[VDt UD 18262]]); (DInt true 8, [[VInt 1]]); (DFlt 8, [[VFlt 3 2]])] in
   let b := mk_etb 2 1 [(DDt UD, [[VDt UD 18262]]); (DFlt 8, [[VInt 1]; [VFlt 3 2]])] in
-  tb_path (tb_blocks a) (tb_blocks b) = PValues /\
+  tb_path (tb_blocks a) (tb_blocks b) = PColumns /\
   tb_dom (mk_mcfg false false false false) (mk_eopts false false false false) a b = true.
 Proof. split; reflexivity. Qed.
 
@@ -360,4 +339,18 @@ Proof.
   { intros x y H. unfold tb_dom. apply andb_prop in H as [Hw Hn]. rewrite Hw, Hn, mask_dom_correct. reflexivity. }
   rewrite (tb_refines _ _ _ _ (D _ _ H1)), (tb_refines _ _ _ _ (D _ _ H2)).
   unfold S_tb_equals. rewrite (Z.eqb_sym (tb_oid a)), (S_tb_content_sym o a b). reflexivity.
+Qed.
+
+(* the guards of the source's own configuration do not mention layouts: the answer depends on the columns only *)
+Lemma tb_layout_independent_correct o a b a' b' :
+  tb_wf a && tb_wf b && tb_wf a' && tb_wf b' = true -> nat_dom a b = true ->
+  tb_cols a = tb_cols a' -> tb_cols b = tb_cols b' -> tb_rows a = tb_rows a' -> tb_rows b = tb_rows b' ->
+  (tb_oid a =? tb_oid b) = (tb_oid a' =? tb_oid b') ->
+  M_tb_equals mcfg_correct o a b = M_tb_equals mcfg_correct o a' b'.
+Proof.
+  intros W Hn Ca Cb Ra Rb Ho.
+  apply andb_prop in W as [W Wb']. apply andb_prop in W as [W Wa']. apply andb_prop in W as [Wa Wb].
+  assert (Hn' : nat_dom a' b' = true) by (unfold nat_dom in *; rewrite <- Ca, <- Cb; exact Hn).
+  apply tb_layout_independent; try assumption; unfold tb_dom;
+    rewrite ?Wa, ?Wb, ?Wa', ?Wb', ?Hn, ?Hn', mask_dom_correct; reflexivity.
 Qed.
